@@ -477,6 +477,51 @@ def r13_5(prog, rep):
         rep.broken_("rule=R13.5 no sendfile/pread of the mail file found in data_cb")
 
 
+def r13_7(prog, rep):
+    """The executor keeps every umask a request can carry and drops only the `unset` code.  The umask field has 10 bits: 0..0777 are requests,
+    the all-ones value is `unset` (R05.4).  The condition under which echsx() restores the old umask is evaluated for all 1024 field values."""
+    rid = "R13.7"
+    from ..rules.encodings import field_width
+    f = prog.fn("echsx", "echsx.c")
+    cfg = f.cfg
+    width = field_width(prog, "umsk")
+    mask = (1 << width) - 1
+    # the first umask() call installs the request; a later umask() call under a condition on the field undoes it
+    sites = call_sites(f, "umask")
+    reset = None
+    for S in sites:
+        for p_ in cfg.lpreds.get(S.b, []):
+            c = cfg.cond(p_)
+            if c is None:
+                continue
+            fld = [lv(n) for n in walk(c) if n.get("k") == "mem" and n.get("f") == "umsk"]
+            if fld:
+                reset = (p_, cfg.blocks[p_].succs.index(S.b), c, fld[0], S)
+    if reset is None:
+        rep.fail(rid, "echsx/umask-reset", f.loc(), "no conditional reset of the umask depending on the request's umask field found")
+        return
+    p_, si, c, fld, S = reset
+    wrong_reset, wrong_keep = [], []
+    for v in range(mask + 1):
+        r = eval_in({fld: v}, c, f)
+        if r is None:
+            rep.broken_("rule=R13.7 cannot evaluate `%s` for %s = %d" % (show(c), fld, v))
+            return
+        resets = bool(r) == (si == 0)
+        if v <= 0o777 and resets:
+            wrong_reset.append(v)
+        if v == mask and not resets:
+            wrong_keep.append(v)
+    key = "echsx/umask-honoured"
+    if wrong_reset:
+        rep.fail(rid, key, f.loc(S.line), "a requested umask of %s is undone by the reset test `%s` (only the unset code 0%o may be): the job runs with "
+                 "the executor's inherited umask" % (", ".join("0%o" % v for v in wrong_reset[:4]), show(c), mask))
+    elif wrong_keep:
+        rep.fail(rid, key, f.loc(S.line), "the unset code 0%o is installed as a umask instead of being ignored" % mask)
+    else:
+        rep.ok(rid, key, f.loc(S.line), "all 512 requestable umasks are kept, the unset code 0%o is reset (`%s` evaluated for all %d field values)" % (mask, show(c), mask + 1))
+
+
 def run(prog, rep, tier, snap):
     rep.rule("R13.1", "the 20-row routing table of prep_task against the statement", 20)
     rep.call(r13_1, prog, rep)
@@ -489,6 +534,8 @@ def run(prog, rep, tier, snap):
     from ..rules import watch
     rep.rule("R13.4", "child watchers whose callback means 'terminated' are registered for termination only", 1)
     rep.call(watch.child_watchers, prog, rep, "R13.4", "echsx.c")
+    rep.rule("R13.7", "every requestable umask is honoured, only the unset code is dropped (whole field domain)", 1)
+    rep.call(r13_7, prog, rep)
     from ..rules import spawn
     rep.rule("R13.6", "a failed posix_spawn (positive error number) is not taken for a started process", 2)
     rep.call(spawn.spawn_results, prog, rep, "R13.6", "echsx.c", 2)
